@@ -288,6 +288,8 @@ fn ascii_text(len: usize) -> String {
 }
 
 const PATCH_LINES: [&[u8]; 8] = [b"a\n", b"$NetBSD$\n", b"x $NetBSD: y $ z\n", b"$NetBS\n", b"\n", b"D$ tail", b"${V} $x $NetBSD: y $\r\n", b"caf\xe9 \r\n"];
+/// near misses of the marker: none of these lines contains "$NetBSD"
+const NEAR_MISS: [&[u8]; 10] = [b"see NetBSD PR 1\n", b"$netbsd$\n", b"$NETBSD: x $\n", b"$Id$\n", b"$ NetBSD$\n", b"$FreeBSD$\n", b"$Net BSD$\n", b"NetBSD$\n", b"$NetBS D$\n", b"$NetBS\0D$\n"];
 
 fn patch_inputs(max_lines: usize) -> Vec<Vec<u8>> {
     let mut out = vec![];
@@ -300,6 +302,11 @@ fn patch_inputs(max_lines: usize) -> Vec<Vec<u8>> {
         out.push(c);
     };
     seqs::dfs(PATCH_LINES.len(), max_lines, &mut pre, &|s: &[usize]| s.len() >= 2 && s[..s.len() - 1].contains(&5), &mut visit);
+    for near in NEAR_MISS {
+        out.push([b"a\n".as_slice(), near, b"b\n"].concat());
+        out.push(near[..near.len() - 1].to_vec());
+        out.push([near, b"$NetBSD$\n", near].concat());
+    }
     // a final unterminated line ending exactly in the marker
     for tail in [&b"$NetBSD"[..], b"a\n# $NetBSD", b"a\n$NetBS", b"x $NetBSD$"] {
         out.push(tail.to_vec());
@@ -362,11 +369,13 @@ fn name_table(t: &mut Tally) {
             t.evals += 1;
             t.validated += 1;
             t.states += 1;
-            let r = guard(|| Digest::from_str(&s).is_ok());
-            if r != Ok(is_name) {
-                t.violation(Violation::new("name", json!({"name": s}), json!({"accepted": is_name}), json!(format!("{:?}", r)), "a string that is not one of the six names must be Unsupported"));
-            } else if !is_name {
-                t.outcome("name/near-miss-rejected");
+            // one of the six names must be accepted; for any other string the statement only fixes
+            // what an accepted name prints as: one of the six canonical spellings, which parses back
+            let r = guard(|| Digest::from_str(&s).ok().map(|d| (d.to_string(), Digest::from_str(&d.to_string()).map(|x| x == d).unwrap_or(false))));
+            match r {
+                Ok(None) if !is_name => t.outcome("name/near-miss-rejected"),
+                Ok(Some((shown, again))) if names.contains(&shown.as_str()) && again && (!is_name || shown.eq_ignore_ascii_case(&s)) => t.outcome(if is_name { "name/case-variant-accepted" } else { "name/alias-accepted (not constrained)" }),
+                other => t.violation(Violation::new("name", json!({"name": s}), json!(if is_name { "accepted, printing as its canonical spelling" } else { "rejected, or an alias printing as one of the six canonical spellings" }), json!(format!("{:?}", other)), "algorithm names parse case-insensitively and print in their canonical spelling")),
             }
         }
     }
@@ -569,6 +578,15 @@ fn main() {
         check_str(&mut t, &ascii_text(len));
     }
     check_str(&mut t, "h\u{e9}llo \u{1f600}");
+    // hash_str hashes exactly the string's bytes: no trimming, no patch filtering
+    for s in ["a\n", "a\n\n", "\na", " a", "a ", "\t", "\0", "a\0b", "x\n$NetBSD$\n", "$NetBSD: y $", "a\r\n", "\u{feff}a", "\u{85}", "\u{a0}x\u{a0}"] {
+        check_str(&mut t, s);
+    }
+    for d in patch_inputs(2) {
+        if let Ok(s) = std::str::from_utf8(&d) {
+            check_str(&mut t, s);
+        }
+    }
     name_table(&mut t);
     run.merge(t);
     run.finish();
